@@ -189,6 +189,106 @@ def r4(ctx):
         ctx.ok(rule, "write_into_field", detail)
 
 
+BIAS_CALLS = {"checked_add": 1, "wrapping_add": 1, "saturating_add": 1, "overflowing_add": 1, "strict_add": 1, "unchecked_add": 1,
+              "checked_sub": -1, "wrapping_sub": -1, "saturating_sub": -1, "overflowing_sub": -1, "strict_sub": -1, "unchecked_sub": -1}
+PASS_CALLS = ("try_from", "from", "into", "try_into", "ok", "ok_or", "ok_or_else", "unwrap", "unwrap_or", "unwrap_or_default", "expect",
+              "min", "max", "clamp", "branch", "map_err", "clone")
+
+
+def count_biases(P, body, ex, is_count, out, depth=0):
+    """constant offsets applied to the value for which `is_count` holds on the way up to `ex` (descends through conversions, Option /
+    Result plumbing, min / max, and the closures given to map / and_then)"""
+    if depth > 24 or not isinstance(ex, tuple) or not ex:
+        return False
+    if is_count(ex):
+        return True
+    k = ex[0]
+    if k == "bin" and ex[1] in ("Add", "Sub", "AddWithOverflow", "SubWithOverflow", "AddUnchecked", "SubUnchecked"):
+        sign = 1 if ex[1].startswith("Add") else -1
+        l = count_biases(P, body, ex[2], is_count, out, depth + 1)
+        r = count_biases(P, body, ex[3], is_count, out, depth + 1)
+        for hit, other, sg in ((l, ex[3], sign), (r, ex[2], 1 if sign == 1 else None)):
+            o = F.strip_casts(other)
+            if hit and o[0] == "const" and sg is not None:
+                out.append(sg * int(o[1]))
+        return l or r
+    if k == "call":
+        nm = X.last_seg(ex[1] or "")
+        args = ex[3]
+        if nm in BIAS_CALLS and len(args) == 2:
+            hit = count_biases(P, body, args[0], is_count, out, depth + 1)
+            o = F.strip_casts(args[1])
+            if hit and o[0] == "const":
+                out.append(BIAS_CALLS[nm] * int(o[1]))
+            return hit
+        if nm in ("map", "and_then", "map_or", "map_or_else", "then", "filter_map") and len(args) >= 2:
+            hit = count_biases(P, body, args[0], is_count, out, depth + 1)
+            if hit:
+                for a in args[1:]:
+                    if a[0] == "agg" and a[1] == "closure":
+                        cb = P.bodies.get("%s::%s" % (body.crate, a[2]))
+                        if cb is None:
+                            continue
+                        Oc = X.Origins(cb, P)
+                        for d in cb.defs.get(0, ()):
+                            rv = Oc.rvalue(d[3], d[0], d[1], 0) if d[2] == "assign" else Oc.call_ex(d[3], 0)
+                            count_biases(P, cb, rv, lambda e: e[0] == "param" and e[1] == 2, out, depth + 1)
+            return hit
+        if nm in PASS_CALLS or nm in ("Some", "Ok"):
+            return any([count_biases(P, body, a, is_count, out, depth + 1) for a in args[:1]])
+        return False
+    subs = []
+    if k in ("field", "deref", "ref", "downcast", "mut", "try"):
+        subs = [ex[1]]
+    elif k == "cast":
+        subs = [ex[2]]
+    elif k == "agg":
+        subs = [x for _, x in ex[4]]
+    elif k == "phi":
+        subs = list(ex[1])
+    elif k == "unwrap_or":
+        subs = [ex[1]]
+    return any([count_biases(P, body, x, is_count, out, depth + 1) for x in subs])
+
+
+def r8(ctx):
+    rule = "C05.R8"
+    ctx.rule(rule, "count bias mirror (X.691 19.8: the number of additions n is sent as the normally small length n - 1): "
+                   "Scope::write_into_field subtracts exactly 1 before writing the count (C05.R4) and Scope::read_from_field adds exactly 1 "
+                   "to the value read before it is used as the number of presence bits (range end, bitmap skip)")
+    P = ctx.program()
+    try:
+        b = P.one("asn1rs", "rw::uper::Scope::read_from_field")
+    except KeyError as e:
+        ctx.fail(rule, "anchor-lost:read_from_field", str(e))
+        return
+
+    def is_count(e):
+        return e[0] == "call" and X.last_seg(e[1] or "") in COUNT_CALLS
+
+    n = 0
+    for body in [b] + P.closures_of(b):
+        O = X.Origins(body, P)
+        for cs in body.calls():
+            if cs.name not in ("set_pos", "min"):
+                continue
+            for a in O.call_args(cs)[1 if cs.name == "set_pos" else 0:]:
+                if not mentions_call(a, COUNT_CALLS):
+                    continue
+                out = []
+                count_biases(P, body, a, is_count, out)
+                n += 1
+                key = "read_from_field#%s-bias" % cs.name
+                detail = {"function": body.path, "use": cs.name, "value": X.render(a)[:260], "offsets": out}
+                if out != [1]:
+                    ctx.fail(rule, key, "the transmitted addition count is used with the constant offsets %s instead of exactly +1 (the writer "
+                                        "sends n - 1): the reader expects a different number of presence bits than were written" % out,
+                             cs.loc(), detail)
+                else:
+                    ctx.ok(rule, key, detail)
+    ctx.floor(rule, n, "C05.R8.uses")
+
+
 def r5(ctx):
     from . import c01
     rule = "C05.R5"
@@ -216,5 +316,6 @@ def run(ctx):
     r3(ctx)
     r4(ctx)
     r5(ctx)
+    r8(ctx)
     from .c16 import r7 as choice_tag_from_root_alternatives
     choice_tag_from_root_alternatives(ctx, rule="C05.R7")
